@@ -13,7 +13,7 @@ RULE = ("cases: (planar graph, trace, first-order configuration without width: a
         "distinct = case JSON")
 ASSUMPTIONS = ["planar metric, InMemMap; graphs <= 12 nodes, traces <= 12 points", "probabilities compared with 1e-9 relative slack"]
 TOLERANCES = {"logprob": 1e-9}
-BUDGET = {"quick": {"shards": 8, "examples": 500}, "thorough": {"shards": 16, "examples": 9000}}
+BUDGET = {"quick": {"shards": 8, "examples": 700}, "thorough": {"shards": 16, "examples": 9000}}
 
 
 def check_case(case, ctx):
@@ -53,7 +53,23 @@ def check_case(case, ctx):
 def strategy(tier):
     @st.composite
     def _s(draw):
-        case = draw(common.mixed_case(tier, ne_share=5, min_len=2, config_kw={"ne": True, "width": None, "first_order": True}))
+        if draw(st.integers(0, 3)) == 0:
+            # distance-based matcher whose non-emitting transition noise is much tighter than the emitting one, observations
+            # beside the road: a state won through a non-emitting chain must still be continued with the emitting noise
+            sz = gen.sizes(tier)
+            g = draw(gen.planar_graph(min_nodes=4, max_nodes=sz["max_nodes"], families=["chain"], chain_steps=[1.0, 1.5, 2.0],
+                                      self_listed=False))
+            t = draw(gen.trace_on(g, min_len=3, max_len=sz["max_len"], kinds=["sparse"], sigmas=[0.2, 0.5]))
+            c = draw(gen.config(families=("distance",), ne=True, width=None, first_order=True))
+            c["obs_noise"] = draw(st.sampled_from([0.5, 1.0]))
+            c["dist_noise"] = draw(st.sampled_from([1.0, 2.0]))
+            c["dist_noise_ne"] = draw(st.sampled_from([0.1, 0.25]))
+            c["max_dist"] = None
+            c["max_dist_init"] = None
+            c["min_prob_norm"] = draw(st.sampled_from([None, None, 0.01, 0.1]))
+            case = {"graph": g, "trace": t, "config": c, "gen": "ne-friendly+tight-ne-noise"}
+        else:
+            case = draw(common.mixed_case(tier, ne_share=5, min_len=2, config_kw={"ne": True, "width": None, "first_order": True}))
         case["config"]["max_lattice_width"] = None
         return case
     return _s()
